@@ -44,6 +44,8 @@ def run(res, tier, seed, replay):
                        "residue, 0, 1, p-1, p, q, v+q, v-q, -v, p-v (non-member), 2^2049, v+q*2^|q|, v+p, swap with neighbour, truncation) and every "
                        "public input (card components of both stacks, p, q, g, h, keys, commitment generators in use) is changed; the real verifier "
                        "must refuse (false or exception) every mutant except a negative representative of the same residue (DESIGN O3); "
+                       "re-proved oracle: every group-element public input is replaced for prover and verifier by p-v, v*u (u of order dividing "
+                       "(p-1)/q), v+p and the honest prover code makes >= 24 fresh proofs: any acceptance is a PROPFAIL; "
                        "PROPFAIL = an accepted mutant.  records: real hash-input strings and real VTMF verifier verdicts on honest and mutated "
                        "inputs, recomputed by the extracted Coq model (hash given as the logged oracle table)")
     res.assumptions += ["random-oracle step: when a mutation changes the Fiat-Shamir hash input, rejection rests on H(x') <> c' (not a theorem)",
@@ -97,6 +99,12 @@ def run(res, tier, seed, replay):
                     d = systems.setdefault(m.group(1), dict(runs=0, atoms=0, mutants=0, rejected=0, thrown=0, tolerated=0, knobmut=0, fails=0))
                     for i, k in enumerate(["runs", "atoms", "mutants", "rejected", "thrown", "tolerated", "knobmut", "fails"]):
                         d[k] += int(m.group(i + 2))
+            elif line.startswith("REPROVED "):
+                m = re.match(r"REPROVED (\S+) attempts=(\d+) thrown=(\d+)", line)
+                if m:
+                    d = res.cov.setdefault("reproved", {})
+                    d[m.group(1)] = d.get(m.group(1), 0) + int(m.group(2))
+                    res.cov["evaluations"] += int(m.group(2))
             elif line.startswith("NOTE ") or line.startswith("OBS "):
                 if line not in res.notes and len(res.notes) < 60:
                     res.notes.append(line[:300])
